@@ -719,6 +719,85 @@ pub fn run(_params: &Params) {
       }
     }
   }
+  // ---- the same bytes as the state metadata of an Alias Output (the route a resolver takes): intact bytes unpack to the
+  // published document, damaged or foreign bytes are refused whatever `allow_empty` says, and only EMPTY metadata is an
+  // empty (deactivated) document, and only when `allow_empty` is set
+  if ctx::choose(6) == 0 {
+    use identity_iota_core::block::address::Address;
+    use identity_iota_core::block::address::Ed25519Address;
+    use identity_iota_core::block::output::unlock_condition::GovernorAddressUnlockCondition;
+    use identity_iota_core::block::output::unlock_condition::StateControllerAddressUnlockCondition;
+    use identity_iota_core::block::output::AliasId;
+    use identity_iota_core::block::output::AliasOutputBuilder;
+    if let (Some(v), Ok(did)) = (ledger.entries.get(&p.did).and_then(|vs| vs.last()).cloned(), IotaDID::parse(&p.did)) {
+      let addr = Address::Ed25519(Ed25519Address::new([7u8; 32]));
+      let output_with = |metadata: Vec<u8>| {
+        AliasOutputBuilder::new_with_amount(1_000_000, AliasId::null())
+          .with_state_metadata(metadata)
+          .add_unlock_condition(StateControllerAddressUnlockCondition::new(addr))
+          .add_unlock_condition(GovernorAddressUnlockCondition::new(addr))
+          .finish()
+      };
+      let allow_empty = ctx::choose(2) == 0;
+      let kind = ctx::choose(4);
+      let metadata: Vec<u8> = match kind {
+        0 => v.bytes.clone(),
+        1 => {
+          // one bit of marker / version / encoding flipped
+          let mut b = v.bytes.clone();
+          let pos = ctx::choose(5);
+          b[pos] ^= 1 << ctx::choose(8);
+          b
+        }
+        2 => ctx::bytes(1 + ctx::choose(40)),
+        _ => Vec::new(),
+      };
+      if let Ok(output) = output_with(metadata) {
+        ctx::stat("probe.unpack_from_output");
+        ctx::sched("output-route", kind as u64 * 2 + allow_empty as u64);
+        let r = ctx::catch(|| IotaDocument::unpack_from_output(&did, &output, allow_empty).map_err(|e| e.to_string()));
+        match (kind, r) {
+          (_, Err(pmsg)) => ctx::violation("C14", "C14.rejects_bad_header", "output-route/panic", format!("unpack_from_output panicked: {pmsg}")),
+          (0, Ok(Ok(doc))) => {
+            let core = serde_json::to_value(doc.core_document()).unwrap();
+            if core != v.truth {
+              ctx::violation(
+                "C14",
+                "C14.round_trip",
+                "output-route/document-differs",
+                format!("unpack_from_output returned {core}, published was {}", v.truth),
+              );
+            }
+          }
+          (0, Ok(Err(e))) => ctx::violation("C14", "C14.round_trip", "output-route/intact-rejected", format!("intact state metadata rejected: {e}")),
+          (1 | 2, Ok(Ok(_))) => ctx::violation(
+            "C14",
+            "C14.rejects_bad_header",
+            "output-route/damaged-metadata-accepted",
+            format!("unpack_from_output(allow_empty = {allow_empty}) accepted state metadata that is {}", if kind == 1 { "damaged in its header" } else { "no packed document at all" }),
+          ),
+          (1 | 2, Ok(Err(_))) => {}
+          (_, Ok(Ok(doc))) => {
+            // empty metadata
+            if !allow_empty || doc.metadata.deactivated != Some(true) || !doc.methods(None).is_empty() {
+              ctx::violation(
+                "C14",
+                "C14.rejects_bad_header",
+                "output-route/empty-metadata",
+                format!("empty state metadata with allow_empty = {allow_empty} gave a document (deactivated: {:?})", doc.metadata.deactivated),
+              );
+            }
+          }
+          (_, Ok(Err(_))) => {
+            if allow_empty {
+              ctx::violation("C14", "C14.rejects_bad_header", "output-route/empty-metadata-refused", "empty state metadata refused although allow_empty is set".to_owned());
+            }
+          }
+        }
+      }
+    }
+  }
+
   // ---- an IotaDocument obtained by CONVERSION from a CoreDocument whose controller is not an IOTA DID (the conversion
   // checks nothing). Such a document is no IOTA document; refusing to pack it is fine, but what packs has to unpack.
   if ctx::choose(16) == 0 {
